@@ -6,10 +6,14 @@ import (
 	"fmt"
 	"net"
 	"os"
+	"path/filepath"
 	"strings"
+	"sync"
 	"testing"
 	"time"
 
+	"github.com/honeytrap/honeytrap/event"
+	"github.com/honeytrap/honeytrap/pushers"
 	"golang.org/x/crypto/ssh"
 	"pgregory.net/rapid"
 
@@ -40,6 +44,10 @@ type attempt struct {
 	// ftp probes: PassForm "noarg" sends the gated command without its parameter
 	UserForm string `json:"user_form,omitempty"`
 	PassForm string `json:"pass_form,omitempty"`
+	// ftp: spelling of the command NAME (command names are case-insensitive): "" UPPER | "lower" |
+	// "title" Xxxx | "alt" xXxX. Spell applies to USER and to a probe's command, PassSpell to PASS.
+	Spell     string `json:"spell,omitempty"`
+	PassSpell string `json:"pass_spell,omitempty"`
 }
 
 type authCase struct {
@@ -47,6 +55,11 @@ type authCase struct {
 	Set      []cred    `json:"credential_set"`
 	Wildcard bool      `json:"wildcard"`
 	Steps    []attempt `json:"steps"`
+	// ftp schedule dimensions: Pipelined = the whole dialogue is written in one client write,
+	// replies are read afterwards; PushDelayMs = the event channel takes that long per event
+	// (a channel that does I/O), 0 = the instant capture channel
+	Pipelined   bool `json:"pipelined,omitempty"`
+	PushDelayMs int  `json:"push_delay_ms,omitempty"`
 }
 
 var users = []string{"root", "admin", "guest", ""}
@@ -438,6 +451,71 @@ func ldapEvents(c authCase, cap *lab.Capture, ip net.IP, port int, n int) error 
 
 // ---------------------------------------------------------------- ftp (fixed credential set anonymous:anonymous)
 
+// slowCapture is an event channel that takes DelayMs per event before it records it in a
+// lab.Capture - a stand-in for any channel that does I/O in Send. The server's event bus
+// calls Send synchronously, so the service's event pump really is this slow.
+type slowCapture struct {
+	ID      string `toml:"id"`
+	DelayMs int    `toml:"delay_ms"`
+	cap     *lab.Capture
+}
+
+func (s *slowCapture) Send(e event.Event) {
+	if s.DelayMs > 0 {
+		time.Sleep(time.Duration(s.DelayMs) * time.Millisecond)
+	}
+	s.cap.Send(e)
+}
+
+var (
+	slowMu   sync.Mutex
+	slowCaps = map[string]*slowCapture{}
+)
+
+func init() {
+	pushers.Register("c12-slow-capture", func(options ...func(pushers.Channel) error) (pushers.Channel, error) {
+		s := &slowCapture{cap: lab.NewCapture()}
+		for _, o := range options {
+			o(s)
+		}
+		slowMu.Lock()
+		slowCaps[s.ID] = s
+		slowMu.Unlock()
+		return s, nil
+	})
+}
+
+// startFTP starts a server with the ftp service; delayMs > 0 selects the slow event channel.
+func startFTP(delayMs int) (*svc.Instance, error) {
+	if delayMs <= 0 {
+		return svc.StartInstance([]string{"ftp"})
+	}
+	dir, err := lab.DataDir()
+	if err != nil {
+		return nil, err
+	}
+	fs := filepath.Join(dir, "ftpbase-"+lab.NextID())
+	if err := os.MkdirAll(fs, 0755); err != nil {
+		return nil, err
+	}
+	id := lab.NextID()
+	toml := fmt.Sprintf("[listener]\ntype=\"verif-mem\"\nid=%q\n\n[channel.cap]\ntype=\"c12-slow-capture\"\nid=%q\ndelay_ms=%d\n\n[[filter]]\nchannel=[\"cap\"]\n\n%s",
+		id, id+"-cap", delayMs, svc.Body(fs, []string{"ftp"}))
+	srv, err := lab.Start(id, toml, true)
+	if err != nil {
+		return nil, err
+	}
+	slowMu.Lock()
+	sc := slowCaps[id+"-cap"]
+	delete(slowCaps, id+"-cap")
+	slowMu.Unlock()
+	if sc == nil {
+		srv.Stop()
+		return nil, fmt.Errorf("slow capture channel was not constructed")
+	}
+	return &svc.Instance{Srv: srv, Cap: sc.cap, FsBase: fs}, nil
+}
+
 func ftpCodes(out []byte) []string {
 	var codes []string
 	sc := bufio.NewScanner(bytes.NewReader(out))
@@ -450,15 +528,135 @@ func ftpCodes(out []byte) []string {
 	return codes
 }
 
+// spell renders a command name in one of the spellings a case-insensitive name can have
+func spell(verb, how string) string {
+	switch how {
+	case "lower":
+		return strings.ToLower(verb)
+	case "title":
+		if verb == "" {
+			return verb
+		}
+		return strings.ToUpper(verb[:1]) + strings.ToLower(verb[1:])
+	case "alt":
+		b := []byte(strings.ToLower(verb))
+		for i := 1; i < len(b); i += 2 {
+			b[i] = strings.ToUpper(string(b[i]))[0]
+		}
+		return string(b)
+	}
+	return verb
+}
+
+// ftpWire is what one step puts on the wire
+type ftpWire struct {
+	user    string // USER line, "" = not sent
+	userArg string // the user name it presents
+	pass    string // PASS line, "" = not sent
+	passArg string // the password it presents
+	probe   string // probe command line
+	verb    string // canonical (upper-case) name of the probe command
+	bare    bool   // the probe command was sent without its parameter
+}
+
+func ftpWireOf(st attempt) ftpWire {
+	var w ftpWire
+	if st.Kind == "login" {
+		if st.UserForm != "skip" {
+			u := spell("USER", st.Spell)
+			switch st.UserForm {
+			case "noarg":
+				w.user = u
+			case "space":
+				w.user = u + " "
+			default:
+				w.user, w.userArg = u+" "+st.User, st.User
+			}
+		}
+		if st.PassForm != "skip" {
+			p := spell("PASS", st.PassSpell)
+			switch st.PassForm {
+			case "noarg":
+				w.pass = p
+			case "space":
+				w.pass = p + " "
+			case "spaces":
+				w.pass = p + "    "
+			default:
+				w.pass, w.passArg = p+" "+st.Pass, st.Pass
+			}
+		}
+		return w
+	}
+	w.verb = st.User
+	rest := ""
+	if i := strings.IndexByte(w.verb, ' '); i > 0 {
+		w.verb, rest = st.User[:i], st.User[i:]
+	}
+	if st.PassForm == "noarg" && rest != "" {
+		rest = "" // the gated command without its parameter
+		w.bare = true
+	}
+	w.probe = spell(w.verb, st.Spell) + rest
+	return w
+}
+
+// once logged in these wait for / open a data connection (bounded, seconds) and may answer
+// twice: they are exercised by C09/C11; here they only probe the gate
+var ftpDataVerbs = map[string]bool{"LIST": true, "NLST": true, "RETR": true, "STOR": true, "APPE": true, "PORT": true, "EPRT": true}
+
+// MDTM for an existing path answers twice once logged in (213 then 450, services/ftp/cmd.go
+// commandMdtm.Execute - a reply-conformance matter outside this property): a lock-step client
+// attributes the extra line to MDTM, in a pipelined dialogue it would shift every later reply
+var ftpTwiceVerbs = map[string]bool{"MDTM": true}
+
+// passInSet: some user of the credential set has this password (the attempt could log in)
+func (c authCase) passInSet(pass string) bool {
+	for _, k := range c.Set {
+		if k.Pass == pass {
+			return true
+		}
+	}
+	return c.Wildcard
+}
+
+// ftpPlan: the lines of every step of a pipelined dialogue. They must not depend on the
+// replies, so data-connection commands (and MDTM) are left out from the first attempt on that
+// could have logged in (lock-step dialogues leave them out once a login did succeed).
+func ftpPlan(c authCase) [][]string {
+	plan := make([][]string, len(c.Steps))
+	may := false
+	for i, st := range c.Steps {
+		if st.Kind == "other" {
+			continue
+		}
+		w := ftpWireOf(st)
+		if st.Kind == "login" {
+			if w.user != "" {
+				plan[i] = append(plan[i], w.user)
+			}
+			if w.pass != "" {
+				plan[i] = append(plan[i], w.pass)
+				if c.passInSet(w.passArg) {
+					may = true
+				}
+			}
+		} else if !(may && (ftpDataVerbs[w.verb] || ftpTwiceVerbs[w.verb])) {
+			plan[i] = append(plan[i], w.probe)
+		}
+	}
+	return plan
+}
+
 func checkFTP(c authCase) error {
-	in, err := svc.StartInstance([]string{"ftp"})
+	in, err := startFTP(c.PushDelayMs)
 	if err != nil {
 		return fmt.Errorf("infra: %v", err)
 	}
 	defer in.Srv.Stop()
 	sc := &svc.Script{Service: "ftp"}
 	se := in.Open(sc)
-	se.Conn.WaitIdle(5 * time.Second)
+	se.Conn.WaitIdle(30 * time.Second)
 	loggedIn := false
 	var lines []string
 	mainConn := se.Conn
@@ -469,7 +667,46 @@ func checkFTP(c authCase) error {
 		}
 	}()
 	cur := se.Conn
+	// pipelined client: the whole dialogue of this connection goes out in ONE write, the
+	// replies are collected once the server has worked through it and are then judged in
+	// order exactly as the lock-step replies are
+	var plan [][]string
+	var pre []string
+	if c.Pipelined {
+		plan = ftpPlan(c)
+		var all []string
+		for _, p := range plan {
+			all = append(all, p...)
+		}
+		if len(all) > 0 {
+			before := len(ftpCodes(cur.Output()))
+			cur.Send([]byte(strings.Join(all, "\r\n") + "\r\n"))
+			switch cur.WaitIdle(120 * time.Second) {
+			case lab.Closed:
+				return fmt.Errorf("server closed the connection during the pipelined dialogue %q", all)
+			case lab.Busy:
+				return fmt.Errorf("inconclusive: no quiescence within 120s after %d pipelined commands", len(all))
+			}
+			pre = ftpCodes(cur.Output())[before:]
+			if len(pre) < len(all) {
+				return fmt.Errorf("%d replies to %d pipelined commands %q (codes %v)", len(pre), len(all), all, pre)
+			}
+			if len(pre) > len(all) {
+				// replies cannot be attributed to commands
+				return fmt.Errorf("inconclusive: %d replies to %d pipelined commands", len(pre), len(all))
+			}
+		}
+	}
 	send := func(line string) (string, error) { // on the connection cur
+		if c.Pipelined && cur == mainConn {
+			if len(pre) == 0 {
+				return "", fmt.Errorf("infra: pipelined plan and dialogue disagree at %q", line)
+			}
+			lines = append(lines, line)
+			code := pre[0]
+			pre = pre[1:]
+			return code, nil
+		}
 		before := len(ftpCodes(cur.Output()))
 		if cur == mainConn {
 			lines = append(lines, line)
@@ -508,7 +745,7 @@ func checkFTP(c authCase) error {
 			// same predicate, and without effect on this connection's gate
 			o := in.Open(&svc.Script{Service: "ftp"})
 			others = append(others, o.Conn)
-			o.Conn.WaitIdle(5 * time.Second)
+			o.Conn.WaitIdle(30 * time.Second)
 			cur = o.Conn
 			code, err := send("USER " + st.User)
 			if err == nil && code != "331" {
@@ -526,16 +763,10 @@ func checkFTP(c authCase) error {
 			}
 			continue
 		}
+		w := ftpWireOf(st)
 		if st.Kind == "login" {
-			if st.UserForm != "skip" {
-				line := "USER " + st.User
-				arg := st.User
-				switch st.UserForm {
-				case "noarg":
-					line, arg = "USER", ""
-				case "space":
-					line, arg = "USER ", ""
-				}
+			if w.user != "" {
+				line, arg := w.user, w.userArg
 				code, err := send(line)
 				if err != nil {
 					return err
@@ -557,19 +788,10 @@ func checkFTP(c authCase) error {
 					}
 				}
 			}
-			if st.PassForm == "skip" {
+			if w.pass == "" {
 				continue
 			}
-			line := "PASS " + st.Pass
-			pass := st.Pass
-			switch st.PassForm {
-			case "noarg":
-				line, pass = "PASS", ""
-			case "space":
-				line, pass = "PASS ", ""
-			case "spaces":
-				line, pass = "PASS    ", ""
-			}
+			line, pass := w.pass, w.passArg
 			code, err := send(line)
 			if err != nil {
 				return err
@@ -597,26 +819,21 @@ func checkFTP(c authCase) error {
 				addPend("")
 			}
 		} else {
-			verb := st.User
-			if i := strings.IndexByte(verb, ' '); i > 0 {
-				verb = verb[:i]
-			}
-			if loggedIn && (verb == "LIST" || verb == "NLST" || verb == "RETR" || verb == "STOR" || verb == "APPE" || verb == "PORT" || verb == "EPRT") {
-				// once logged in these wait for / open a data connection (bounded, seconds) and may
-				// answer twice: they are exercised by C09/C11; here they only probe the gate
+			if c.Pipelined {
+				if len(plan[si]) == 0 {
+					continue // left out of the pipelined dialogue (data-connection command, MDTM)
+				}
+			} else if loggedIn && ftpDataVerbs[w.verb] {
 				continue
 			}
-			line := st.User // probe command line
-			if st.PassForm == "noarg" {
-				line = verb // the gated command without its parameter
-			}
+			line := w.probe
 			code, err := send(line)
 			if err != nil {
 				return err
 			}
 			addPend("") // whether a USER stays pending across another command is not covered by the statement
 			if !loggedIn {
-				if st.PassForm == "noarg" && line != st.User {
+				if w.bare {
 					// missing parameter: any refusal will do (553 or 530), but not an execution
 					if code[0] != '5' {
 						return fmt.Errorf("step %d: %q before any successful login answered %s, want a refusal", si, line, code)
@@ -631,25 +848,42 @@ func checkFTP(c authCase) error {
 		}
 	}
 	se.Conn.CloseWrite()
-	se.Conn.WaitClosed(5 * time.Second)
+	se.Conn.WaitClosed(30 * time.Second)
+	// every command of the connection (so every USER/PASS attempt) must reach the event
+	// stream. The connection is over, the service only has to drain what it queued: wait
+	// generously, and once that wait ran out keep waiting as long as events still arrive.
 	var got []string
-	in.Cap.WaitFor(3*time.Second, func(all []lab.Ev) bool {
-		got = nil
-		for _, e := range lab.From(all, sc.SrcIP.String(), sc.SrcPort) {
-			if e.Has("ftp.command") {
-				got = append(got, e.Str("ftp.command"))
+	pred := func(min int) func(all []lab.Ev) bool {
+		return func(all []lab.Ev) bool {
+			got = nil
+			for _, e := range lab.From(all, sc.SrcIP.String(), sc.SrcPort) {
+				if e.Has("ftp.command") {
+					got = append(got, e.Str("ftp.command"))
+				}
 			}
+			return len(got) >= min
 		}
-		return len(got) >= len(lines)
-	})
-	trimAll := func(l []string) string {
-		var o []string
-		for _, x := range l {
-			o = append(o, strings.TrimRight(x, " "))
-		}
-		return strings.Join(o, "\n")
 	}
-	if trimAll(got) != trimAll(lines) {
+	perEvent := time.Duration(c.PushDelayMs) * time.Millisecond
+	if !in.Cap.WaitFor(20*time.Second+10*perEvent*time.Duration(len(lines)+4), pred(len(lines))) {
+		for n := len(got); in.Cap.WaitFor(10*time.Second+100*perEvent, pred(n+1)) && len(got) < len(lines); n = len(got) {
+		}
+	}
+	trim := func(x string) string { return strings.TrimRight(x, " ") }
+	same := len(got) == len(lines)
+	for i := 0; same && i < len(lines); i++ {
+		same = trim(got[i]) == trim(lines[i])
+	}
+	if !same {
+		// name the first command without its event
+		k := 0
+		for _, l := range lines {
+			if k < len(got) && trim(got[k]) == trim(l) {
+				k++
+				continue
+			}
+			return fmt.Errorf("%d ftp.command events for %d commands sent: no event for %q (and %d later commands); every USER/PASS attempt must be recorded. events %q, sent %q", len(got), len(lines), l, len(lines)-k-1, got, lines)
+		}
 		return fmt.Errorf("ftp.command events %q, commands sent %q (every USER/PASS attempt must be recorded)", got, lines)
 	}
 	return nil
@@ -726,7 +960,7 @@ func TestAuth(t *testing.T) {
 		}
 		return
 	}
-	r.Rule("credential sets of size 0..3 over users {root,admin,guest,''} x passwords {root,admin,123456,''} (+ wildcard for the ssh simulator, the only service that defines one) configured through TOML on a fresh server; attempt sequences of length 1..4 on one connection (ssh: per user; ldap: DN forms cn=U,dc=.. / U / anonymous, plus bind requests without authentication element / without DN / with SASL instead of a simple password; ftp: fixed set anonymous:anonymous, user and password each from configured / not configured / empty argument (USER, USER<sp>, PASS, PASS<sp>..) / command not sent, so also PASS without USER, USER without PASS and probes between them) with gated-operation probes (ftp: also without their parameter) before and after each attempt; ldap and ftp: attempts on further connections to the same service interleaved (no effect on this connection's gate); oracle = reference predicate pair-in-set, per-attempt auth events with evaluated user and presented password, gated ops refused (ldap 53 / ftp 530, any 5xx when the parameter is missing) until a login succeeded on this connection; non-trivial = failing attempt followed by another attempt, or a probe before a success")
+	r.Rule("credential sets of size 0..3 over users {root,admin,guest,''} x passwords {root,admin,123456,''} (+ wildcard for the ssh simulator, the only service that defines one) configured through TOML on a fresh server; attempt sequences of length 1..4 on one connection (ssh: per user; ldap: DN forms cn=U,dc=.. / U / anonymous, plus bind requests without authentication element / without DN / with SASL instead of a simple password; ftp: fixed set anonymous:anonymous, user and password each from configured / not configured / empty argument (USER, USER<sp>, PASS, PASS<sp>..) / command not sent, so also PASS without USER, USER without PASS and probes between them; every command name spelled UPPER / lower / Title / aLtErNaTiNg; schedule lock-step with 1..6 steps or pipelined = 12..36 steps (about 20..60 commands) in one write with the replies judged afterwards; event channel instant or taking 1..20 ms per event) with gated-operation probes (ftp: also without their parameter) before and after each attempt; ldap and ftp: attempts on further connections to the same service interleaved (no effect on this connection's gate); oracle = reference predicate pair-in-set, per-attempt auth events with evaluated user and presented password, gated ops refused (ldap 53 / ftp 530, any 5xx when the parameter is missing) until a login succeeded on this connection; non-trivial = failing attempt followed by another attempt, or a probe before a success")
 	r.Rapid(t, "TestAuth", r.Pick(1200, 25000), func(rt *rapid.T) {
 		c := authCase{Service: rapid.SampledFrom([]string{"ssh", "ldap", "ldap", "ftp"}).Draw(rt, "service")}
 		if only := os.Getenv("C12_ONLY"); only != "" {
@@ -774,10 +1008,22 @@ func TestAuth(t *testing.T) {
 			}
 		default:
 			c.Set = []cred{{"anonymous", "anonymous"}}
-			n := rapid.IntRange(1, 6).Draw(rt, "nsteps")
+			// schedule: lock-step (one command outstanding) or pipelined (the whole dialogue in one
+			// write, 20..60 commands); event channel instant or taking some ms per event
+			lo, hi := 1, 6
+			if rapid.IntRange(0, 5).Draw(rt, "pipelined") == 0 {
+				c.Pipelined = true
+				lo, hi = 12, 36
+				c.PushDelayMs = rapid.SampledFrom([]int{0, 1, 5, 20}).Draw(rt, "pushdelay")
+			} else {
+				c.PushDelayMs = rapid.SampledFrom([]int{0, 0, 0, 0, 1, 5}).Draw(rt, "pushdelay")
+			}
+			// command names are case-insensitive: every command is sent in one of the spellings
+			spellings := []string{"", "", "lower", "title", "alt"}
+			n := rapid.IntRange(lo, hi).Draw(rt, "nsteps")
 			for i := 0; i < n; i++ {
 				if rapid.IntRange(0, 2).Draw(rt, "probe") == 0 {
-					st := attempt{Kind: "probe", User: rapid.SampledFrom(ftpProbes).Draw(rt, "op")}
+					st := attempt{Kind: "probe", User: rapid.SampledFrom(ftpProbes).Draw(rt, "op"), Spell: rapid.SampledFrom(spellings).Draw(rt, "spell")}
 					// the gated command without its parameter
 					if strings.Contains(st.User, " ") && rapid.IntRange(0, 3).Draw(rt, "noparam") == 0 {
 						st.PassForm = "noarg"
@@ -786,7 +1032,7 @@ func TestAuth(t *testing.T) {
 					continue
 				}
 				// a complete attempt on another connection to the same service
-				if rapid.IntRange(0, 5).Draw(rt, "otherconn") == 0 {
+				if !c.Pipelined && rapid.IntRange(0, 5).Draw(rt, "otherconn") == 0 {
 					c.Steps = append(c.Steps, attempt{Kind: "other", User: rapid.SampledFrom([]string{"anonymous", "anonymous", "root"}).Draw(rt, "ou"), Pass: rapid.SampledFrom([]string{"anonymous", "anonymous", "root"}).Draw(rt, "op")})
 					continue
 				}
@@ -799,6 +1045,8 @@ func TestAuth(t *testing.T) {
 				if st.Pass == "" {
 					st.PassForm = rapid.SampledFrom([]string{"noarg", "noarg", "space", "spaces", "skip"}).Draw(rt, "passform")
 				}
+				st.Spell = rapid.SampledFrom(spellings).Draw(rt, "spell")
+				st.PassSpell = rapid.SampledFrom(spellings).Draw(rt, "passspell")
 				c.Steps = append(c.Steps, st)
 			}
 		}
@@ -807,12 +1055,33 @@ func TestAuth(t *testing.T) {
 			fp = vlib.JSON(c)
 		}
 		r.Case("auth/"+c.Service, fp, func() interface{} { return c })
+		if c.Service == "ftp" {
+			if c.Pipelined {
+				r.Label("ftp/pipelined", 1)
+				if c.PushDelayMs > 0 {
+					r.Label("ftp/pipelined+slow-event-channel", 1)
+				}
+			} else if c.PushDelayMs > 0 {
+				r.Label("ftp/lockstep+slow-event-channel", 1)
+			}
+			for _, st := range c.Steps {
+				if st.Spell != "" || st.PassSpell != "" {
+					r.Label("ftp/command-name-not-upper-case", 1)
+				}
+			}
+		}
 		if err := check(c); err != nil {
 			if strings.HasPrefix(err.Error(), "infra:") {
 				rt.Fatalf("%v", err)
 			}
 			if strings.HasPrefix(err.Error(), "inconclusive:") {
 				r.Label("inconclusive/harness-wait-expired", 1)
+				if os.Getenv("C12_DEBUG") != "" {
+					if f, e := os.OpenFile(os.Getenv("C12_DEBUG"), os.O_APPEND|os.O_CREATE|os.O_WRONLY, 0644); e == nil {
+						fmt.Fprintf(f, "%v :: %s\n", err, vlib.JSON(c))
+						f.Close()
+					}
+				}
 				return
 			}
 			r.Fail(rt, "TestAuth", c, "%v", err)
